@@ -170,7 +170,23 @@ out = ["import MsqProofs.Lemmas.ParseFrameE%d" % (i + 1) for i in range(NFILES)]
        "    have hk : n < k := by omega",
        "    have ihk := ih k hk",
        "    exact ⟨by omega, " + ", ".join("frameF_%s hs Y d n k hk ihk" % f.name for f in FIELDS) + "⟩",
-       "", "end PM"]
+       ""]
+out.append("/-! ### the same, function by function, in plain form -/")
+for f in FIELDS:
+    X = "(semi :: Y)"
+    app = lambda fuel, args: "PM.%s d %s %s" % (f.fn, fuel, " ".join(a.replace("X", X) for a in args))
+    vs = " ".join(f.vars); side = (f.side + " → ") if f.side else ""; hk = " hk" if f.side else ""
+    if f.rel == "F":
+        out += ["theorem %s_framed (n m : Nat) (hnm : n < m) : ∀ %s v r, %s%s = .ok (v, r) → %s = .ok (v, r ++ semi :: Y) :=" % (f.name, vs, side, app("n", f.src), app("m", f.tgt)),
+                "  fun %s v r%s h => (frameF_all hs Y d n m hnm).%s %s%s v r h" % (vs, hk, f.name, vs, hk)]
+    elif f.rel == "M":
+        out += ["theorem %s_framed (n m : Nat) (hnm : n < m) : ∀ %s x, %s = .ok x → %s = .ok x :=" % (f.name, vs, app("n", f.src), app("m", f.tgt)),
+                "  fun %s x h => (frameF_all hs Y d n m hnm).%s %s x h" % (vs, f.name, vs)]
+    else:
+        out += ["theorem %s_framed (n m : Nat) (hnm : n < m) : ∀ %s," % (f.name, vs),
+                "    (∀ v r, %s = .ok (some (v, r)) → %s = .ok (some (v, r ++ semi :: Y))) ∧ (%s = .ok none → %s = .ok none) :=" % (app("n", f.src), app("m", f.tgt), app("n", f.src), app("m", f.tgt)),
+                "  fun %s => (frameF_all hs Y d n m hnm).%s %s" % (vs, f.name, vs)]
+out += ["", "end PM"]
 wr("MsqProofs/Lemmas/ParseFrame.lean", out)
 
 # ------------------------------------------------------------------------------------------------ statement level
@@ -343,7 +359,32 @@ out = ["import MsqProofs.Lemmas.ParseFrame",
        "@[grind =] theorem swallowRel_error (X : List Tok) (e : Err) (b : R Ast.Stmt) : SwallowRel X (.error e) b = True := by simp [SwallowRel]",
        ""]
 for fn, flags, args in STMT: out += stmt_lemmas(fn, flags, args)
-out += ["end PM"]
+out += ["/-! ### the same in plain form (X = semi :: Y, f < f') -/", "section",
+        "variable {semi : Tok} (hs : IsSemi semi) (Y : List Tok) (d : Gen.D) {f f' : Nat} (hlt : f < f')", "include hs", ""]
+for fn, flags, args in STMT:
+    fl = flags.split()
+    if "mono" in fl: continue
+    fuel, loop, swallow = "fuel" in fl, "loop" in fl, "swallow" in fl
+    side = [x for x in fl if x.startswith("side:")]; side = side[0][5:].split(",") if side else []
+    alias = any(x.startswith("alias:") for x in fl)
+    v = " ".join(args)
+    hyp = "(SemiHead.mk' hs Y)" + (" (frameF_all hs Y d f f' hlt)" if fuel else "")
+    inc = "include hlt in\n" if fuel else ""
+    sidetxt = "".join('%s ≠ ";" → ' % k for k in side); hk = "".join(" h%s" % k for k in side)
+    if loop:
+        src = call(fn, fuel, "f", ["g"] + args); tgt = call(fn, fuel, "f'", ["g'"] + args, "(semi :: Y)")
+        out += [inc + "theorem %s_framed : ∀ g %s g' v r, g ≤ g' → %s = .ok (v, r) → %s = .ok (v, r ++ semi :: Y) :=" % (fn, v, src, tgt),
+                "  fun g %s g' v r hg h => frame_%s %s g %s g' hg v r h" % (v, fn, hyp, v)]
+    elif swallow:
+        src = call(fn, fuel, "f", args); tgt = call(fn, fuel, "f'", args, "(semi :: Y)")
+        out += [inc + "theorem %s_framed : ∀ ts v r, %s = .ok (v, r) →" % (fn, src),
+                "    %s = .ok (v, r ++ semi :: Y) ∨ (r = [] ∧ (∃ c, v = .createTable c) ∧ %s = .ok (v, Y)) :=" % (tgt, tgt),
+                "  fun ts v r h => by simpa using frame_%s %s ts v r h" % (fn, hyp)]
+    else:
+        src = call(fn, fuel, "f", args); tgt = call(fn, fuel, "f'", args, "(semi :: Y)")
+        out += [inc + "theorem %s_framed : ∀ %s, %s∀ v r, %s = .ok (v, r) → %s = .ok (v, r ++ semi :: Y) :=" % (fn, v, sidetxt, src, tgt),
+                "  fun %s%s v r h => frame_%s %s %s%s v r h" % (v, hk, fn, hyp, v, hk)]
+out += ["", "end", "end PM"]
 wr("MsqProofs/Lemmas/ParseFrameStmt.lean", out)
 
 print(len(FIELDS), "fields for", len(ORDER), "functions;", NFILES, "step files")
